@@ -2,8 +2,8 @@
 
 Numeric code hides its thresholds (series/acos switch-overs, early-out caps, reflect tests, "near the pole" branches)
 at places no generic generator aims at. This module discovers them from the code itself: the *set of executed source
-lines* inside the a5 package is recorded for a call (sys.monitoring LINE events, each location reported once, so the
-cost is close to an untraced call); two inputs whose line sets differ are separated by at least one branch boundary,
+lines and of first-taken branch directions* inside the a5 package is recorded for a call (sys.monitoring LINE and
+BRANCH events, each location reported once, so the cost is close to an untraced call); two inputs whose line sets differ are separated by at least one branch boundary,
 which is then located by bisection along the great circle between them. A boundary is typed by the symmetric
 difference of the two line sets (the lines that distinguish the two sides), so that rare branch types can be sampled
 as often as common ones. The discovered boundary points become anchors for the ordinary generators (log-scale
@@ -50,15 +50,25 @@ def line_set(fn):
             seen.add((f[len(root):], line))
         return _mon.DISABLE
 
+    def cb_branch(code, src, dst):
+        # direction taken the first time each conditional jump executes (catches single-line conditional expressions
+        # and short-circuit operators, which line events cannot tell apart)
+        f = code.co_filename
+        if f.startswith(root):
+            seen.add((f[len(root):], f"{code.co_name}@{src}->{dst}"))
+        return _mon.DISABLE
+
     fn()          # warm-up: lazily filled caches must not show up as differences between inputs
     _mon.register_callback(_TOOL, _mon.events.LINE, cb)
-    _mon.set_events(_TOOL, _mon.events.LINE)
+    _mon.register_callback(_TOOL, _mon.events.BRANCH, cb_branch)
+    _mon.set_events(_TOOL, _mon.events.LINE | _mon.events.BRANCH)
     _mon.restart_events()
     try:
         fn()
     finally:
         _mon.set_events(_TOOL, 0)
         _mon.register_callback(_TOOL, _mon.events.LINE, None)
+        _mon.register_callback(_TOOL, _mon.events.BRANCH, None)
     return frozenset(seen)
 
 
